@@ -14,7 +14,7 @@ type Query {
   d: Date
   stamp: Stamp
   u: User
-  users(first: Int = 10, filter: Filter, kinds: [Kind!], ids: [ID!]!, f: Float, limit: Int! = 5, opt: [String], mat: [[Int]], at: Stamp, tags: [String!]! = [], picks: [ID!] = ["a"]): [User!]!
+  users(first: Int = 10, filter: Filter, kinds: [Kind!], ids: [ID!]!, f: Float, limit: Int! = 5, opt: [String], mat: [[Int]], at: Stamp, tags: [String!]! = [], picks: [ID!] = ["a"], cube: [[[Float!]!]!]! = []): [User!]!
   maybe: [User]
   node(id: ID!): Node
   named: [Named!]
@@ -29,7 +29,10 @@ type Query {
   owneds: [Owned!]
 }
 type Mutation { set(input: Filter!): User ping: Boolean }
-type Subscription { tick: Int! changed(id: ID): User }
+"the subscription root implements an interface and is a member of a union: fragments on either apply to it"
+interface Ticker { tick: Int! }
+union Feed = Subscription | Post
+type Subscription implements Ticker { tick: Int! changed(id: ID): User }
 interface Node { id: ID! }
 interface Named implements Node { id: ID! name: String }
 type User implements Node & Named { id: ID! name: String age: Int kind: Kind! friends(first: Int): [User!] best: User posts: [Post] born: Date }
